@@ -252,9 +252,9 @@ def judge_inter(r, base, got, rects, tag, what, tol_px=None, tol_lin=None):
     return ("rect", gr)
 
 
-def judge_roi(r, base, a, b, ma, mb, who):
+def judge_roi(r, base, a, b, ma, mb, who, kw=None):
     """a.overlap_roi(b) must select exactly the shared pixels of a under numpy indexing."""
-    got = call(a.overlap_roi, b)
+    got = call(a.overlap_roi, b, **(kw or {}))
     what = f"{who}.overlap_roi: {show(base, ma, mb) if who == 'a' else show(base, mb, ma)}"
     if got[0] == "raised":
         r.fail(f"overlap_roi:raised-on-common-grid:{base}", f"{what}: {type(got[1]).__name__}: {got[1]}")
@@ -686,6 +686,15 @@ def run_snap(case):
     st, _, _ = locate(base, s, tol, tl)
     if st != "ok":
         r.fail(f"snap_to:result-off-grid:dx{mag(dx)}:dy{mag(dy)}:{base}", f"{what}: {s!r} ({st})")
+    else:
+        # once snapped the two are on a common grid: the set operations must take them
+        u = call(lambda: s | b)
+        if u[0] == "raised":
+            r.fail(f"snap_to:snapped-geobox-rejected-by-union:dx{mag(dx)}:dy{mag(dy)}:{base}", f"{what}: (a.snap_to(b)) | b raised {u[1]}")
+        else:
+            stu, gu, _ = locate(base, u[1], TOL_PX, tl if tl else TOL_LIN)
+            if stu != "ok" or (not r_empty(rect(mb)) and not contains(gu, rect(mb))):
+                r.fail(f"snap_to:union-after-snap-wrong:{base}", f"{what}: (a.snap_to(b)) | b = {u[1]!r} ({stu}, {gu})")
     return r
 
 
@@ -1104,6 +1113,854 @@ def make_run_bbox_triples(tier):
     return run
 
 
+# =============================================================================================
+# Self-review additions: alphabets the first version was blind to (lessons of the seeding rounds)
+# =============================================================================================
+import copy as _copy  # noqa: E402
+import functools as _functools  # noqa: E402
+
+from odc.geo import wh_  # noqa: E402
+from odc.geo.types import shape_  # noqa: E402
+
+EXTRA_BASES = {
+    # single mirrored axis (the main mirrored bases mirror both = a 180 degree turn), shear, non-square pixels
+    "D-flipx": (Affine(-8.0, 0.0, 524288.0, 0.0, -8.0, 6291456.0), "EPSG:32633", True),
+    "D-yup": (Affine(0.5, 0.0, 96.0, 0.0, 0.5, -32.0), "EPSG:4326", True),
+    "D-sheared": (Affine(8.0, 2.0, 1024.0, 0.0, -8.0, 2048.0), "EPSG:3857", True),
+    "D-nonsquare": (Affine(8.0, 0.0, 524288.0, 0.0, -2.0, 6291456.0), "EPSG:32633", True),
+    "R-rot45": (Affine.translation(500000.0, 6000000.0) * Affine.rotation(45.0) * Affine.scale(30.0, -30.0), "EPSG:32633", False),
+    # tiny / huge pixels, origins near 1e7, origins within 1e-3 of / half a pixel off whole numbers, cm pixels in UTM
+    "R-tiny": (Affine(4.5e-6, 0.0, 140.3, 0.0, -4.5e-6, -35.7), "EPSG:4326", False),
+    "R-huge": (Affine(1.0e5, 0.0, -1.0e7, 0.0, -1.0e5, 1.0e7), "EPSG:3857", False),
+    "R-1e7": (Affine(30.0, 0.0, 9999990.0, 0.0, -30.0, 10000020.0), "EPSG:3857", False),
+    "R-offwhole": (Affine(10.0, 0.0, 500000.0005, 0.0, -10.0, 5999995.0), "EPSG:32633", False),
+    "R-cm-utm": (Affine(0.01, 0.0, 512345.1, 0.0, -0.01, 6012345.7), "EPSG:32633", False),
+}
+# small origins: 1e-11 px (0.001 x the alignment tolerance) is far above the float resolution of the pixel coordinates
+EDGE_BASES = {
+    "E-northup": (Affine(1.0, 0.0, 3.0, 0.0, -1.0, -2.0), "EPSG:3857", True),
+    "E-mirrored": (Affine(-0.5, 0.0, 16.0, 0.0, 0.5, -8.0), "EPSG:3857", True),
+    "E-rot45": (Affine(4.0, 4.0, 32.0, 4.0, -4.0, 64.0), "EPSG:3857", True),
+    "E-real": (Affine(0.1, 0.0, 1.3, 0.0, -0.1, -2.7), "EPSG:4326", False),
+}
+BASES.update(EXTRA_BASES)
+BASES.update(EDGE_BASES)
+EXTRA_NAMES = tuple(EXTRA_BASES)
+EDGE_NAMES = tuple(EDGE_BASES)
+
+
+# -- pairs / triples on the extra bases; portrait and landscape operands -------------------------------
+def gen_pairs_extra(tier):
+    shifts = range(-4, 5) if tier == "thorough" else (-4, -1, 0, 3)
+
+    def gen():
+        for base in EXTRA_NAMES:
+            for ma in ((0, 0, 2, 3), (0, 0, 3, 1)):
+                for btx, bty in itertools.product(shifts, repeat=2):
+                    for bny, bnx in itertools.product((0, 1, 3), repeat=2):
+                        yield (base, ma, (btx, bty, bny, bnx))
+
+    return gen
+
+
+def gen_pairs_aspect(tier):
+    bases = BASE_NAMES + (EXTRA_NAMES if tier == "thorough" else ())
+
+    def gen():
+        for base in bases:
+            for ma in ((0, 0, 2, 7), (0, 0, 7, 2)):  # landscape / portrait, (ny, nx)
+                for bny, bnx in ((2, 7), (7, 2), (1, 1), (3, 3)):
+                    for btx, bty in itertools.product((-8, -5, -3, 0, 3, 5, 8), repeat=2):
+                        yield (base, ma, (btx, bty, bny, bnx))
+
+    return gen
+
+
+def gen_triples_extra(tier):
+    xs = ((0, 2), (1, 2), (2, 0)) + (((-2, 1),) if tier == "thorough" else ())
+    ys = ((0, 3), (-3, 2)) + (((2, 1), (0, 0)) if tier == "thorough" else ())
+    mem = tuple((x0, y0, ny, nx) for (x0, nx) in xs for (y0, ny) in ys)
+
+    def gen():
+        for base in EXTRA_NAMES:
+            for a, b, c in itertools.product(mem, repeat=3):
+                yield (base, a, b, c)
+
+    return gen
+
+
+# -- both edges of the alignment tolerance --------------------------------------------------------------
+EDGE_F = (0.9, 0.999, 1.001, 1.1, 10.0)
+EDGE_AX = (0.0,) + tuple(s * f for f in EDGE_F for s in (1.0, -1.0))  # residue on one axis, in units of the tolerance
+EDGE_T = {"default": 1e-8, "explicit-1e-8": 1e-8, "1e-3": 1e-3, "1e-10": 1e-10}
+EDGE_ZERO = (0.0, 5e-9, -5e-9, 1e-3)  # residues (px) used with tol=0 given explicitly
+EDGE_PAIRS = (((0, 0, 2, 3), (1, -1, 2, 2)), ((0, 0, 3, 2), (4, 1, 1, 3)))
+BAND = Fr(5, 10000)  # |residue - tol| <= 5e-4 tol is not judged (float evaluation of the residue)
+
+
+def gen_tol_edges():
+    for base in EDGE_NAMES:
+        for pi in range(len(EDGE_PAIRS)):
+            for tcfg in EDGE_T:
+                for ix, iy in itertools.product(range(len(EDGE_AX)), repeat=2):
+                    if ix or iy:
+                        yield (base, tcfg, ix, iy, pi)
+            for ix, iy in itertools.product(range(len(EDGE_ZERO)), repeat=2):
+                yield (base, "zero", ix, iy, pi)
+
+
+def _fcls(v):
+    return "0" if v == 0 else f"{abs(v):g}"
+
+
+def run_tol_edges(case):
+    base, tcfg, ix, iy, pi = case
+    ma, mb = EDGE_PAIRS[pi]
+    if tcfg == "zero":
+        T = 0.0
+        rx, ry = EDGE_ZERO[ix], EDGE_ZERO[iy]
+        cls = f"x{_fcls(rx)}:y{_fcls(ry)}"
+    else:
+        T = EDGE_T[tcfg]
+        rx, ry = EDGE_AX[ix] * T, EDGE_AX[iy] * T
+        cls = f"x{_fcls(EDGE_AX[ix])}T:y{_fcls(EDGE_AX[iy])}T"
+    a = gb(base, ma)
+    a2 = gb(base, (ma[0] + 1, ma[1] - 1, 2, 2))
+    tx, ty, ny, nx = mb
+    b = GeoBox((ny, nx), BASES[base][0] * Affine.translation(tx + rx, ty + ry), crs_of(base))
+    # exact residue of b on a's grid (rational arithmetic on the float affines actually used)
+    m = mul6(inv6(fr6(a.affine)), fr6(b.affine))
+    ex, ey = abs(m[2] - round(m[2])), abs(m[5] - round(m[5]))
+    big, Tf = max(ex, ey), Fr(T)
+    if T == 0.0:
+        expect = "reject" if big > 0 else "either"
+    elif big <= Tf * (1 - BAND):
+        expect = "accept"
+    elif big >= Tf * (1 + BAND):
+        expect = "reject"
+    else:
+        expect = "either"
+    kw = {} if tcfg == "default" else {"tol": T}
+    ops = {
+        "a.overlap_roi(b)": lambda: a.overlap_roi(b, **kw),
+        "b.overlap_roi(a)": lambda: b.overlap_roi(a, **kw),
+        "bounding_box_in_pixel_domain(b,a)": lambda: bounding_box_in_pixel_domain(b, a, **kw),
+        "bounding_box_in_pixel_domain(a,b)": lambda: bounding_box_in_pixel_domain(a, b, **kw),
+    }
+    if tcfg == "default":
+        ops.update({
+            "a|b": lambda: a | b, "b|a": lambda: b | a, "a&b": lambda: a & b, "b&a": lambda: b & a,
+            "union([a,a2,b])": lambda: geobox_union_conservative([a, a2, b]),
+            "union([b,a,a2])": lambda: geobox_union_conservative([b, a, a2]),
+            "intersection([a,a2,b])": lambda: geobox_intersection_conservative([a, a2, b]),
+            "intersection([a2,b,a])": lambda: geobox_intersection_conservative([a2, b, a]),
+        })
+    got = {k: call(f) for k, f in ops.items()}
+    r = R(outcome=f"{base}:tol={tcfg}:{expect}:" + ("raised" if all(v[0] == "raised" for v in got.values())
+                                                    else "accepted" if all(v[0] == "ok" for v in got.values()) else "mixed"))
+    what = (f"base={base} a=shift({ma[0]},{ma[1]}) shape({ma[2]},{ma[3]}) b=shift({tx}+{rx!r},{ty}+{ry!r}) shape({ny},{nx}); "
+            f"exact residue ({float(ex):.6g}, {float(ey):.6g}) px, tol={'default (1e-8)' if tcfg == 'default' else T!r}")
+    ra, rb, ra2 = rect(ma), rect(mb), rect((ma[0] + 1, ma[1] - 1, 2, 2))
+    tp = Fr(T) * 2 + TOL_PX
+    for k, v in got.items():
+        opn = k.split("(")[0] if "(" in k else k
+        if expect == "reject" and v[0] != "raised":
+            r.fail(f"tol-edge:accepted-outside-tolerance:{opn}:tol={tcfg}:{cls}",
+                   f"{k} returned {v[1]!r} for a sub-pixel offset above the alignment tolerance; {what}")
+        if expect == "accept" and v[0] == "raised":
+            r.fail(f"tol-edge:rejected-inside-tolerance:{opn}:tol={tcfg}:{cls}",
+                   f"{k} raised {type(v[1]).__name__}: {v[1]} for a sub-pixel offset below the alignment tolerance; {what}")
+    if expect != "reject":
+        # accepted results must be the common-grid answers
+        for k, first, rects in (("a|b", a, [ra, rb]), ("b|a", b, [rb, ra]), ("union([a,a2,b])", a, [ra, ra2, rb]),
+                                ("union([b,a,a2])", b, [rb, ra, ra2])):
+            if k in got and got[k][0] == "ok":
+                judge_union(r, base, got[k], rects, "tol-edge", f"{k} {what}", tp, TOL_LIN)
+        for k, rects in (("a&b", [ra, rb]), ("b&a", [rb, ra]), ("intersection([a,a2,b])", [ra, ra2, rb]),
+                         ("intersection([a2,b,a])", [ra2, rb, ra])):
+            if k in got and got[k][0] == "ok":
+                judge_inter(r, base, got[k], rects, "tol-edge", f"{k} {what}", tp, TOL_LIN)
+        if got["a.overlap_roi(b)"][0] == "ok":
+            judge_roi(r, base, a, b, ma, mb, "a", kw)
+        if got["b.overlap_roi(a)"][0] == "ok":
+            judge_roi(r, base, b, a, mb, ma, "b", kw)
+        for k, want in (("bounding_box_in_pixel_domain(b,a)", (rb[0] - ra[0], rb[1] - ra[1], rb[2] - ra[0], rb[3] - ra[1])),
+                        ("bounding_box_in_pixel_domain(a,b)", (ra[0] - rb[0], ra[1] - rb[1], ra[2] - rb[0], ra[3] - rb[1]))):
+            if got[k][0] == "ok" and tuple(got[k][1]) != want:
+                r.fail(f"tol-edge:bounding_box_in_pixel_domain:value:tol={tcfg}", f"{k} -> {tuple(got[k][1])} want {want}; {what}")
+    if tcfg == "explicit-1e-8":
+        # the option given explicitly with its default value answers like the option omitted
+        for k, f in (("a.overlap_roi(b)", lambda: a.overlap_roi(b)), ("bounding_box_in_pixel_domain(b,a)", lambda: bounding_box_in_pixel_domain(b, a))):
+            d = call(f)
+            same = d[0] == got[k][0] and (d[0] == "raised" or tuple(d[1]) == tuple(got[k][1]))
+            if not same:
+                r.fail(f"tol-edge:explicit-default-differs:{k.split('(')[0]}", f"{k}: tol omitted -> {d!r}, tol=1e-8 -> {got[k]!r}; {what}")
+    if tcfg == "default":
+        # snap_to: the result is on the other grid as far as the library's own alignment test (1e-8 px) is concerned
+        for who, x, y, mx, my in (("b.snap_to(a)", b, a, mb, ma), ("a.snap_to(b)", a, b, ma, mb)):
+            s = call(x.snap_to, y)
+            if s[0] == "raised":
+                r.fail(f"tol-edge:snap_to:raised:{cls}", f"{who}: {s[1]}; {what}")
+                continue
+            s = s[1]
+            mv = mul6(inv6(fr6(x.affine)), fr6(s.affine))
+            og = mul6(inv6(fr6(y.affine)), fr6(s.affine))
+            if abs(mv[2]) > Fr(1, 2) or abs(mv[5]) > Fr(1, 2):
+                r.fail(f"tol-edge:snap_to:moves-more-than-half-pixel:{cls}", f"{who} moved by ({float(mv[2])!r},{float(mv[5])!r}); {what}")
+            off = max(abs(og[2] - round(og[2])), abs(og[5] - round(og[5])))
+            if off > Fr(1e-8) * (1 + BAND):
+                r.fail(f"tol-edge:snap_to:result-off-grid-by-more-than-alignment-tolerance:{cls}",
+                       f"{who} -> {s!r} is {float(off):.6g} px off the other grid; {what}")
+            u = call(lambda: s | y)  # pylint: disable=cell-var-from-loop
+            if u[0] == "raised":
+                r.fail(f"tol-edge:snap_to:snapped-geobox-rejected-by-union:{cls}", f"({who}) | other raised {u[1]}; {what}")
+    return r
+
+
+# -- deviations below a per-pixel tolerance that add up over a long raster ------------------------------------
+LONG_SHAPES = {"landscape-1x2000": (1, 2000), "portrait-2000x1": (2000, 1), "2500x3000": (2500, 3000), "landscape-1x200000": (1, 200000)}
+LONG_DEV = {
+    "aligned": Affine.identity(),
+    "scale-x+9e-4": Affine.scale(1 + 9e-4, 1.0), "scale-x-9e-4": Affine.scale(1 - 9e-4, 1.0),
+    "scale-y+9e-4": Affine.scale(1.0, 1 + 9e-4), "scale-y-9e-4": Affine.scale(1.0, 1 - 9e-4),
+    "shear-x-9e-4": Affine(1.0, 9e-4, 0.0, 0.0, 1.0, 0.0), "shear-y-9e-4": Affine(1.0, 0.0, 0.0, 9e-4, 1.0, 0.0),
+    "rot+0.05deg": Affine.rotation(0.05), "rot-0.05deg": Affine.rotation(-0.05),
+    "scale-x+9e-6": Affine.scale(1 + 9e-6, 1.0), "scale-x-9e-6": Affine.scale(1 - 9e-6, 1.0),
+    "scale-both+9e-6": Affine.scale(1 + 9e-6, 1 + 9e-6), "scale-y+9e-6": Affine.scale(1.0, 1 + 9e-6),
+    "scale-x+1e-12": Affine.scale(1 + 1e-12, 1.0),
+}
+LONG_BASES = ("D-northup", "D-rot45", "D-flipx", "R-northup", "R-rot30", "R-tiny")
+LONG_SHIFTS = ((0, 0), (1999, -3), (-2001, 1))
+
+
+def gen_long():
+    for base in LONG_BASES:
+        for sname in LONG_SHAPES:
+            for dev in LONG_DEV:
+                for sh in LONG_SHIFTS:
+                    yield (base, sname, dev, sh)
+
+
+def run_long(case):
+    base, sname, dev, (sx, sy) = case
+    ny, nx = LONG_SHAPES[sname]
+    ma, mb = (0, 0, ny, nx), (sx, sy, ny, nx)
+    a = gb(base, ma)
+    b = GeoBox((ny, nx), BASES[base][0] * Affine.translation(sx, sy) * LONG_DEV[dev], crs_of(base))
+    # largest displacement of a corner of one raster from the whole-pixel lattice of the other one
+    drift = Fr(0)
+    for x, y in ((a, b), (b, a)):
+        rel = mul6(inv6(fr6(y.affine)), fr6(x.affine))
+        t0 = (round(rel[2]), round(rel[5]))
+        for cx, cy in ((0, 0), (nx, 0), (0, ny), (nx, ny)):
+            px, py = apply6(rel, Fr(cx), Fr(cy))
+            drift = max(drift, abs(px - cx - t0[0]), abs(py - cy - t0[1]))
+    a2 = gb(base, (1, -1, 2, 2))
+    ops = {
+        "a|b": ("binary", lambda: a | b), "b|a": ("binary", lambda: b | a),
+        "a&b": ("binary", lambda: a & b), "b&a": ("binary", lambda: b & a),
+        "a.overlap_roi(b)": ("overlap_roi", lambda: a.overlap_roi(b)), "b.overlap_roi(a)": ("overlap_roi", lambda: b.overlap_roi(a)),
+        "union([a,a2,b])": ("nary", lambda: geobox_union_conservative([a, a2, b])),
+        "intersection([a,a2,b])": ("nary", lambda: geobox_intersection_conservative([a, a2, b])),
+        "bounding_box_in_pixel_domain(b,a)": ("pixel-domain", lambda: bounding_box_in_pixel_domain(b, a)),
+    }
+    got = {k: call(f) for k, (_, f) in ops.items()}
+    expect = "accept" if dev == "aligned" else ("reject" if drift >= Fr(1, 2) else "either")
+    acc = sum(v[0] == "ok" for v in got.values())
+    r = R(outcome=f"{base}:{sname}:{expect}:{'accepted' if acc == len(got) else 'rejected' if acc == 0 else 'mixed'}",
+          nontrivial=expect != "either")
+    what = (f"base={base} a=shape({ny},{nx}) b=a shifted by ({sx},{sy}) px then {dev}: corners drift up to "
+            f"{float(drift):.4g} px from the other raster's pixel lattice")
+    if expect == "reject":
+        for k, v in got.items():
+            if v[0] != "raised":
+                r.fail(f"long:accepted-grid-drifting-half-pixel-or-more:{ops[k][0]}:{dev}:{sname}",
+                       f"{k} returned {v[1]!r}; {what}")
+    elif expect == "accept":
+        ra, rb, ra2 = rect(ma), rect(mb), rect((1, -1, 2, 2))
+        judge_union(r, base, got["a|b"], [ra, rb], "long", f"a|b {what}")
+        judge_union(r, base, got["b|a"], [rb, ra], "long", f"b|a {what}")
+        judge_inter(r, base, got["a&b"], [ra, rb], "long", f"a&b {what}")
+        judge_inter(r, base, got["b&a"], [rb, ra], "long", f"b&a {what}")
+        judge_union(r, base, got["union([a,a2,b])"], [ra, ra2, rb], "long-nary", f"union([a,a2,b]) {what}")
+        judge_inter(r, base, got["intersection([a,a2,b])"], [ra, ra2, rb], "long-nary", f"intersection([a,a2,b]) {what}")
+        for who, x, y, mx, my in (("a", a, b, ma, mb), ("b", b, a, mb, ma)):
+            g = got[f"{who}.overlap_roi({'b' if who == 'a' else 'a'})"]
+            if g[0] == "raised":
+                r.fail(f"overlap_roi:raised-on-common-grid:{base}", f"{who}.overlap_roi {what}: {g[1]}")
+                continue
+            w = inter([rect(mx), rect(my)])
+            rm = rect(mx)
+            want = ((0, 0), (0, 0)) if r_empty(w) else ((w[1] - rm[1], w[3] - rm[1]), (w[0] - rm[0], w[2] - rm[0]))
+            sel = tuple(s.indices(n)[:2] for s, n in zip(g[1], (mx[2], mx[3])))
+            sel = tuple((lo, max(lo, hi)) for lo, hi in sel)
+            bad = not any(hi == lo for lo, hi in sel) if r_empty(w) else sel != want
+            if bad:
+                r.fail(f"overlap_roi:wrong-pixels:long:{base}", f"{who}.overlap_roi -> {g[1]} want rows/cols {want}; {what}")
+    return r
+
+
+# -- four operands in every order ----------------------------------------------------------------------------------
+N4 = ((0, 0, 2, 3), (1, 1, 2, 2), (5, -6, 2, 2), (1, 1, 0, 2), (-2, -1, 4, 6), (3, 0, 2, 2), (7, 7, 3, 0))
+
+
+def gen_nary4(tier):
+    bases = BASE_NAMES + (EXTRA_NAMES if tier == "thorough" else ("D-flipx", "D-sheared"))
+
+    def gen():
+        for base in bases:
+            for combo in itertools.combinations(range(len(N4)), 4):
+                yield (base, combo)
+
+    return gen
+
+
+class _Once:
+    """R wrapper that records a finding key once per case."""
+
+    def __init__(self, r):
+        self.r, self.seen = r, set()
+
+    def fail(self, key, msg):
+        if key not in self.seen:
+            self.seen.add(key)
+            self.r.fail(key, msg)
+
+
+def run_nary4(case):
+    base, combo = case
+    ms = [N4[i] for i in combo]
+    rects = [rect(m) for m in ms]
+    n_empty = sum(r_empty(x) for x in rects)
+    has_i = not r_empty(inter(rects))
+    r = R(outcome=f"{base}:empty-operands{n_empty}:{'shared' if has_i else 'no-shared'}")
+    ro = _Once(r)
+    seen = {"union": set(), "intersection": set()}
+    n = 0
+    for perm in itertools.permutations(range(4)):
+        gs = [gb(base, ms[i]) for i in perm]
+        rs = [rects[i] for i in perm]
+        what = f"order {[ms[i] for i in perm]} base={base}"
+        res = {
+            ("union", "nary"): call(geobox_union_conservative, gs),
+            ("intersection", "nary"): call(geobox_intersection_conservative, gs),
+            ("union", "fold"): call(lambda: _functools.reduce(lambda x, y: x | y, gs)),  # pylint: disable=cell-var-from-loop
+            ("intersection", "fold"): call(lambda: _functools.reduce(lambda x, y: x & y, gs)),  # pylint: disable=cell-var-from-loop
+        }
+        n += 4
+        for (op, form), v in res.items():
+            if op == "union":
+                g = judge_union(ro, base, v, rs, f"nary4-{form}", f"{form} union {what}")
+                if g is not None and not r_empty(g):
+                    seen[op].add(g)
+            else:
+                g = judge_inter(ro, base, v, rs, f"nary4-{form}", f"{form} intersection {what}")
+                if g is not None and g[0] == "rect":
+                    seen[op].add(g[1])
+    for op, s in seen.items():
+        if len(s) > 1:
+            r.fail(f"nary4:{op}:result-depends-on-order:{base}", f"operands {ms}: results {sorted(s)} depending on the order")
+    r.counts = dict(nary4_orderings=n)
+    return r
+
+
+# -- lazily cached state, call histories, derived views, same / equal objects ---------------------------------------
+HIST_BASES = ("D-northup", "D-rot45", "D-sheared", "R-northup", "R-mirrored")
+HIST_PAIRS = (((0, 0, 2, 3), (1, -1, 2, 2)), ((0, 0, 3, 2), (4, 1, 1, 3)), ((-1, 2, 2, 2), (0, 2, 0, 3)))
+HIST_VARIANTS = ("warm-extent", "warm-all", "sequence-twice", "derived-from-parent", "same-object", "equal-object")
+
+
+def gen_history():
+    for base in HIST_BASES:
+        for pi in range(len(HIST_PAIRS)):
+            for v in HIST_VARIANTS:
+                yield (base, pi, v)
+
+
+def _canon(v):
+    if v[0] == "raised":
+        return ("raised", type(v[1]).__name__)
+    x = v[1]
+    if isinstance(x, GeoBox):
+        return ("geobox", tuple(x.shape), tuple(x.affine)[:6], str(x.crs))
+    if isinstance(x, tuple) and all(isinstance(s, slice) for s in x):
+        return ("roi", tuple((s.start, s.stop, s.step) for s in x))
+    return ("other", repr(x))
+
+
+def _fresh(base, m):
+    tx, ty, ny, nx = m
+    return GeoBox((ny, nx), member_affine(base, tx, ty), CRS(BASES[base][1]))
+
+
+def _snapshot(g):
+    return (tuple(g.shape), tuple(g.affine)[:6], str(g.crs), g.extent.geom.wkt, tuple(g.boundingbox))
+
+
+HIST_OPS = ("a|b", "b|a", "a&b", "b&a", "a.overlap_roi(b)", "b.overlap_roi(a)", "a.snap_to(b)", "a.enclosing(b.extent)",
+            "union([a,b,a])", "intersection([b,a])")
+
+
+def _hist_op(name, a, b):
+    return {
+        "a|b": lambda: a | b, "b|a": lambda: b | a, "a&b": lambda: a & b, "b&a": lambda: b & a,
+        "a.overlap_roi(b)": lambda: a.overlap_roi(b), "b.overlap_roi(a)": lambda: b.overlap_roi(a),
+        "a.snap_to(b)": lambda: a.snap_to(b), "a.enclosing(b.extent)": lambda: a.enclosing(b.extent),
+        "union([a,b,a])": lambda: geobox_union_conservative([a, b, a]),
+        "intersection([b,a])": lambda: geobox_intersection_conservative([b, a]),
+    }[name]
+
+
+def run_history(case):
+    base, pi, variant = case
+    ma, mb = HIST_PAIRS[pi]
+    if variant in ("same-object", "equal-object"):
+        mb = ma
+    r = R(outcome=f"{base}:{variant}")
+    what = f"{variant}: {show(base, ma, mb)}"
+    # cold reference: every operation on its own pair of fresh objects
+    cold = {}
+    for k in HIST_OPS:
+        cold[k] = _canon(call(_hist_op(k, _fresh(base, ma), _fresh(base, mb))))
+    a = _fresh(base, ma)
+    if variant == "same-object":
+        b = a
+    elif variant == "derived-from-parent":
+        parent = GeoBox((14, 14), member_affine(base, -6, -6), CRS(BASES[base][1]))
+        _ = parent.extent, parent.boundingbox, parent.geographic_extent
+        a = parent[ma[1] + 6:ma[1] + 6 + ma[2], ma[0] + 6:ma[0] + 6 + ma[3]]
+        b = parent[mb[1] + 6:mb[1] + 6 + mb[2], mb[0] + 6:mb[0] + 6 + mb[3]]
+        for nm, g, m in (("a", a, ma), ("b", b, mb)):
+            st, gr, _ = locate(base, g)
+            if st != "ok" or gr != rect(m):
+                return r.fail(f"history:crop-of-parent-is-not-the-member:{base}", f"{what}: parent[...] -> {g!r} ({st} {gr}) want {rect(m)}")
+    else:
+        b = _fresh(base, mb)
+    if variant in ("warm-extent", "warm-all", "sequence-twice", "same-object", "equal-object"):
+        _ = a.extent, b.extent
+    if variant == "warm-all":
+        for g in (a, b):
+            for read in (lambda: g.boundingbox, lambda: g.geographic_extent, lambda: hash(g), lambda: g.resolution,
+                         lambda: g.is_empty(), lambda: repr(g), lambda: g.center_pixel, lambda: g.footprint("EPSG:4326", npoints=10)):
+                try:
+                    read()
+                except Exception:  # pylint: disable=broad-except
+                    pass  # the reads are history only; what they return is not this property's business
+    before = (_snapshot(a), _snapshot(b))
+    want_snap = (_snapshot(_fresh(base, ma)), _snapshot(_fresh(base, mb)))
+    if variant != "derived-from-parent" and before != want_snap:
+        r.fail(f"history:operand-state-differs-from-fresh:{variant}:{base}", f"{what}: {before} vs {want_snap}")
+    order = list(HIST_OPS) + (list(reversed(HIST_OPS)) if variant == "sequence-twice" else [])
+    derived = variant == "derived-from-parent"
+    for k in order:
+        v = call(_hist_op(k, a, b))
+        c = _canon(v)
+        opn = k.split("(")[0] if "(" in k else k
+        if derived:
+            # a crop of the parent carries other rounding than base * translation: compare as grid locations, and
+            # leave out enclosing(b.extent), whose region sides sit exactly on pixel lines
+            if k == "a.enclosing(b.extent)" and not is_exact(base):
+                continue
+            c0 = call(_hist_op(k, _fresh(base, ma), _fresh(base, mb)))
+            if c[0] == "geobox" and c0[0] == "ok" and isinstance(c0[1], GeoBox):
+                l1, l0 = locate(base, v[1]), locate(base, c0[1])
+                same = (l1[0], l1[1]) == (l0[0], l0[1]) or (0 in tuple(v[1].shape) and tuple(v[1].shape) == tuple(c0[1].shape))
+                if not same:
+                    r.fail(f"history:answer-differs-from-cold-call:{opn}:{variant}:{base}", f"{what}: {k} -> {v[1]!r} but on fresh objects {c0[1]!r}")
+                c = cold[k]
+        if c != cold[k]:
+            r.fail(f"history:answer-differs-from-cold-call:{opn}:{variant}:{base}", f"{what}: {k} -> {c} but on fresh objects {cold[k]}")
+        if v[0] == "ok" and isinstance(v[1], GeoBox):
+            g = v[1]
+            twin = GeoBox(tuple(g.shape), g.affine, CRS(BASES[base][1]))
+            if g.extent.geom.wkt != twin.extent.geom.wkt or tuple(g.boundingbox) != tuple(twin.boundingbox):
+                r.fail(f"history:result-carries-stale-extent:{opn}:{variant}:{base}",
+                       f"{what}: {k} -> {g!r} reports extent {g.extent.geom.wkt[:120]} but a GeoBox of the same shape/affine has {twin.extent.geom.wkt[:120]}")
+    if (_snapshot(a), _snapshot(b)) != before:
+        r.fail(f"history:operand-modified:{variant}:{base}", f"{what}: operands changed by the operations")
+    # state independent clauses on the warm objects
+    ra, rb = rect(ma), rect(mb)
+    tag = "history"
+    judge_union(r, base, call(lambda: a | b), [ra, rb], tag, f"a|b {what}")
+    judge_inter(r, base, call(lambda: a & b), [ra, rb], tag, f"a&b {what}")
+    judge_roi(r, base, a, b, ma, mb, "a")
+    return r
+
+
+# -- enclosing of regions that are not the usual polygon ------------------------------------------------------------------
+EK_BASES = ("D-northup", "D-rot45", "R-northup", "D-flipx")
+EK_POINTS = (((1.5, 1.5), (3.25, 1.5), (3.25, 2.75)), ((1.0, 1.0), (3.0, 1.0), (3.0, 3.0)), ((-2.25, 0.5), (0.75, 0.5), (0.75, 4.0)))
+EK_KINDS = ("point", "line", "line3", "multipoint", "multiline", "triangle", "triangle-repeated-vertices", "ring",
+            "multipolygon-1", "multipolygon-2", "collection", "polygon-with-hole", "bbox-vs-polygon", "empty-polygon",
+            "empty-collection", "empty-point", "no-crs")
+
+
+def gen_enclosing_kinds():
+    for base in EK_BASES:
+        for pi in range(len(EK_POINTS)):
+            for kind in EK_KINDS:
+                yield (base, pi, kind)
+
+
+def run_enclosing_kinds(case):
+    import shapely.geometry as sg  # pylint: disable=import-outside-toplevel
+
+    base, pi, kind = case
+    crs = crs_of(base)
+    src = gb(base, (1, -2, 2, 3))
+    P = EK_POINTS[pi]
+    W = [_world(base, px, py) for px, py in P]
+    far = [_world(base, px + 6, py - 3) for px, py in P]
+    r = R(outcome=f"{base}:{kind}")
+    what = f"base={base} src=shift(1,-2) region={kind} at pixel locations {P}"
+    if kind.startswith("empty") or kind == "no-crs":
+        region = {
+            "empty-polygon": lambda: geom.Geometry(sg.Polygon(), crs),
+            "empty-collection": lambda: geom.Geometry(sg.GeometryCollection(), crs),
+            "empty-point": lambda: geom.Geometry(sg.Point(), crs),
+            "no-crs": lambda: geom.polygon(W + W[:1], None),
+        }[kind]()
+        got = call(src.enclosing, region)
+        r.outcome += ":raised" if got[0] == "raised" else ":returned"
+        if got[0] == "ok":
+            if kind == "no-crs":
+                r.fail("enclosing:region-without-crs-accepted", f"{what}: {got[1]!r}")
+            elif locate(base, got[1])[0] != "ok":
+                r.fail(f"enclosing:empty-region:result-not-on-source-grid:{kind}", f"{what}: {got[1]!r}")
+        return r
+    verts = list(W)
+    if kind == "point":
+        verts = W[:1]
+        region = geom.point(*W[0], crs)
+    elif kind == "line":
+        verts = W[:2]
+        region = geom.line(W[:2], crs)
+    elif kind == "line3":
+        region = geom.line(W, crs)
+    elif kind == "multipoint":
+        region = geom.multipoint(W, crs)
+    elif kind == "multiline":
+        region = geom.multiline([W[:2], W[1:]], crs)
+    elif kind == "triangle":
+        region = geom.polygon(W + W[:1], crs)
+    elif kind == "triangle-repeated-vertices":
+        region = geom.polygon([p for p in W for _ in (0, 1)] + W[:1] + W[:1], crs)
+    elif kind == "ring":
+        region = geom.polygon(W + W[:1], crs).exterior
+    elif kind == "multipolygon-1":
+        region = geom.multipolygon([[W + W[:1]]], crs)
+    elif kind == "multipolygon-2":
+        verts = W + far
+        region = geom.multipolygon([[W + W[:1]], [far + far[:1]]], crs)
+    elif kind == "collection":
+        verts = W + far[:1]
+        region = geom.Geometry(sg.GeometryCollection([sg.Polygon(W), sg.Point(far[0])]), crs)
+    elif kind == "polygon-with-hole":
+        big = [_world(base, px, py) for px, py in ((-5.5, -4.25), (9.25, -4.25), (9.25, 8.5), (-5.5, 8.5))]
+        verts = big
+        region = geom.polygon(big + big[:1], crs, W + W[:1])
+    elif kind == "bbox-vs-polygon":
+        xs, ys = [p[0] for p in W], [p[1] for p in W]
+        bb = (min(xs), min(ys), max(xs), max(ys))
+        verts = [(bb[0], bb[1]), (bb[2], bb[1]), (bb[2], bb[3]), (bb[0], bb[3])]
+        region = BoundingBox(*bb, crs)
+        alt = call(src.enclosing, geom.polygon(verts + verts[:1], crs))
+    else:
+        raise ValueError(kind)
+    got = call(src.enclosing, region)
+    if got[0] == "raised":
+        return r.fail(f"enclosing:raised:{kind}:{base}", f"{what}: {type(got[1]).__name__}: {got[1]}")
+    if kind == "bbox-vs-polygon" and _canon(alt) != _canon(got):
+        r.fail(f"enclosing:bbox-and-its-polygon-differ:{base}", f"{what}: BoundingBox -> {got[1]!r}, its polygon -> {alt[1]!r}")
+    st, g, _ = locate(base, got[1])
+    if st != "ok":
+        return r.fail(f"enclosing:{st}:{kind}:{base}", f"{what}: {got[1]!r} is not on the source grid ({st})")
+    inv = base_inv(base)
+    pts = [apply6(inv, Fr(x), Fr(y)) for x, y in verts]
+    tol = tols(base)[0]
+    for ax, (g0, g1) in (("x", (g[0], g[2])), ("y", (g[1], g[3]))):
+        i = 0 if ax == "x" else 1
+        lo, hi = min(p[i] for p in pts), max(p[i] for p in pts)
+        if g0 > lo + tol or g1 < hi - tol:
+            r.fail(f"enclosing:region-not-covered:{ax}:{kind}:{base}",
+                   f"{what}: result pixel rectangle {g} does not cover [{float(lo)!r}, {float(hi)!r}] on {ax}")
+        elif hi - lo > tol:
+            if not (lo - g0 < 1 + tol and g1 - hi < 1 + tol):
+                r.fail(f"enclosing:excess-1px-or-more:{ax}:{kind}:{base}",
+                       f"{what}: result pixel rectangle {g} exceeds [{float(lo)!r}, {float(hi)!r}] on {ax} by a pixel or more")
+        elif g1 - g0 > 1:  # no extent on this axis: the documented minimum of one pixel, not more
+            r.fail(f"enclosing:more-than-one-pixel-for-zero-extent:{ax}:{kind}:{base}",
+                   f"{what}: result pixel rectangle {g}, region has no extent on {ax} (at {float(lo)!r})")
+    return r
+
+
+# -- the same value in another encoding ----------------------------------------------------------------------------------
+ENC_BASES = {"D-northup": 32633, "R-northup": 4326, "D-sheared": 3857}
+ENC_PAIRS = (((0, 0, 2, 3), (1, -1, 2, 2)), ((0, 0, 3, 2), (4, 1, 1, 3)))
+ENC_SAME = ("shape-list", "shape-np-int64", "shape-Shape2d", "shape-wh", "affine-int-entries", "affine-np-float64", "affine-neg-zero",
+            "crs-int", "crs-lower", "crs-upper", "crs-urn", "crs-wkt2", "crs-wkt1", "crs-projjson", "crs-pyproj", "crs-object", "crs-pickled")
+ENC_OTHER = ("crs-stale-id-wkt", "crs-edited-wkt-no-id", "crs-none")
+_PP = {}
+
+
+def _pp(code):
+    if code not in _PP:
+        _PP[code] = pyproj.CRS.from_epsg(code)
+    return _PP[code]
+
+
+def _edited_wkt(code, keep_id):
+    import re  # pylint: disable=import-outside-toplevel
+
+    w = _pp(code).to_wkt()
+    if code == 32633:
+        w2 = w.replace('"Longitude of natural origin",15', '"Longitude of natural origin",16')
+    else:
+        w2 = w.replace("6378137", "6378136", 1)
+    if w2 == w:
+        raise AssertionError("WKT edit did not apply")
+    if not keep_id:
+        w2 = re.sub(r',\s*ID\["EPSG",%d\]\]\s*$' % code, "]", w2)
+    if pyproj.CRS.from_wkt(w2) == _pp(code):
+        return None  # PROJ itself takes the edited text for the same CRS (it does for EPSG:3857): nothing to judge
+    return w2
+
+
+def gen_encodings():
+    for base in ENC_BASES:
+        for pi in range(len(ENC_PAIRS)):
+            for enc in ENC_SAME + ENC_OTHER:
+                yield (base, pi, enc)
+
+
+def run_encodings(case):
+    import pickle  # pylint: disable=import-outside-toplevel
+
+    base, pi, enc = case
+    code = ENC_BASES[base]
+    ma, mb = ENC_PAIRS[pi]
+    a = gb(base, ma)
+    tx, ty, ny, nx = mb
+    A = member_affine(base, tx, ty)
+    shape, crs = (ny, nx), crs_of(base)
+    r = R(outcome=f"{base}:{enc}")
+    if enc == "shape-list":
+        shape = [ny, nx]
+    elif enc == "shape-np-int64":
+        shape = (np.int64(ny), np.int64(nx))
+    elif enc == "shape-Shape2d":
+        shape = shape_((ny, nx))
+    elif enc == "shape-wh":
+        shape = wh_(nx, ny)
+    elif enc == "affine-int-entries":
+        if any(float(v) != int(v) for v in tuple(A)[:6]):
+            r.outcome += ":not-integral"
+            r.nontrivial = False
+        else:
+            A = Affine(*(int(v) for v in tuple(A)[:6]))
+    elif enc == "affine-np-float64":
+        A = Affine(*(np.float64(v) for v in tuple(A)[:6]))
+    elif enc == "affine-neg-zero":
+        A = Affine(*((-0.0 if v == 0 else v) for v in tuple(A)[:6]))
+    elif enc == "crs-int":
+        crs = code
+    elif enc == "crs-lower":
+        crs = f"epsg:{code}"
+    elif enc == "crs-upper":
+        crs = f"EPSG:{code}"
+    elif enc == "crs-urn":
+        crs = f"urn:ogc:def:crs:EPSG::{code}"
+    elif enc == "crs-wkt2":
+        crs = _pp(code).to_wkt()
+    elif enc == "crs-wkt1":
+        crs = _pp(code).to_wkt("WKT1_GDAL")
+    elif enc == "crs-projjson":
+        crs = _copy.deepcopy(_pp(code).to_json_dict())
+    elif enc == "crs-pyproj":
+        crs = pyproj.CRS.from_epsg(code)
+    elif enc == "crs-object":
+        crs = CRS(f"EPSG:{code}")
+    elif enc == "crs-pickled":
+        crs = pickle.loads(pickle.dumps(CRS(_pp(code).to_wkt())))
+    elif enc == "crs-stale-id-wkt":
+        crs = _edited_wkt(code, True)
+    elif enc == "crs-edited-wkt-no-id":
+        crs = _edited_wkt(code, False)
+    elif enc == "crs-none":
+        crs = None
+    if crs is None and enc != "crs-none":
+        return R(outcome=f"{base}:{enc}:skipped-proj-says-equal", nontrivial=False)
+    b = GeoBox(shape, A, crs)
+    a2 = gb(base, (ma[0] + 1, ma[1] - 1, 2, 2))
+    ops = {
+        "a|b": lambda: a | b, "b|a": lambda: b | a, "a&b": lambda: a & b, "b&a": lambda: b & a,
+        "a.overlap_roi(b)": lambda: a.overlap_roi(b), "b.overlap_roi(a)": lambda: b.overlap_roi(a),
+        "union([a,a2,b])": lambda: geobox_union_conservative([a, a2, b]),
+        "intersection([a2,b,a])": lambda: geobox_intersection_conservative([a2, b, a]),
+        "bounding_box_in_pixel_domain(b,a)": lambda: bounding_box_in_pixel_domain(b, a),
+    }
+    got = {k: call(f) for k, f in ops.items()}
+    what = f"base={base} {show(base, ma, mb)}; b built with {enc}"
+    if enc in ENC_OTHER:
+        for k, v in got.items():
+            if v[0] != "raised":
+                r.fail(f"encodings:accepted-other-crs:{k.split('(')[0] if '(' in k else k}:{enc}",
+                       f"{k} returned {v[1]!r} although b is in another CRS ({enc}); {what}")
+        return r
+    ra, rb, ra2 = rect(ma), rect(mb), rect((ma[0] + 1, ma[1] - 1, 2, 2))
+    tag = f"encoding-{enc}"
+    judge_union(r, base, got["a|b"], [ra, rb], tag, f"a|b {what}")
+    judge_union(r, base, got["b|a"], [rb, ra], tag, f"b|a {what}")
+    judge_inter(r, base, got["a&b"], [ra, rb], tag, f"a&b {what}")
+    judge_inter(r, base, got["b&a"], [rb, ra], tag, f"b&a {what}")
+    judge_union(r, base, got["union([a,a2,b])"], [ra, ra2, rb], tag, f"union([a,a2,b]) {what}")
+    judge_inter(r, base, got["intersection([a2,b,a])"], [ra2, rb, ra], tag, f"intersection([a2,b,a]) {what}")
+    judge_roi(r, base, a, b, ma, mb, "a")
+    judge_roi(r, base, b, a, mb, ma, "b")
+    v = got["bounding_box_in_pixel_domain(b,a)"]
+    want = (rb[0] - ra[0], rb[1] - ra[1], rb[2] - ra[0], rb[3] - ra[1])
+    if v[0] == "raised" or tuple(v[1]) != want:
+        r.fail(f"bounding_box_in_pixel_domain:{tag}", f"{v!r} want {want}; {what}")
+    return r
+
+
+# -- BoundingBox: inverted / degenerate boxes, CRS-less x CRS, tuples, number types -----------------------------------------
+BBM_VALUES = (0, 1, 3)
+BBM_BOXES = tuple((x0, y0, x1, y1) for x0, x1 in itertools.product(BBM_VALUES, repeat=2) for y0, y1 in itertools.product(BBM_VALUES, repeat=2))
+BBM_FEW = ((0, 0, 1, 1), (0, 0, 3, 3), (1, 1, 3, 3), (1, 0, 3, 1), (0, 0, 0, 3), (3, 3, 3, 3), (3, 0, 1, 1))
+BBM_CRS3 = ((0, 0, None), (0, 0, 1), (None, None, 0), (0, None, None), (0, 1, 1), (0, 1, None), (0, 0, 0), (None, None, None))
+BBM_TRIPLES = ((0, 2, 1), (0, 3, 1), (3, 4, 5), (0, 5, 6))  # indices into BBM_FEW; first two operands overlapping / disjoint / ...
+BBM_CRS = ("EPSG:3857", "EPSG:4326")
+BBM_ENC = ("float", "np.float64", "np.int64", "np.float32", "neg-zero", "np.int8")
+BBM_TUPLE = ("tuple", "list", "ndarray")
+
+
+def gen_bbox_more():
+    n = len(BBM_BOXES)
+    for i in range(n):
+        for j in range(n):
+            yield ("laws", i, j)
+    for ti in range(len(BBM_TRIPLES)):
+        for ci in range(len(BBM_CRS3)):
+            yield ("crs-mix", ti, ci)
+    m = len(BBM_FEW)
+    for i in range(m):
+        for j in range(m):
+            for e in range(len(BBM_ENC)):
+                yield ("number-types", i, j, e)
+            for e in range(len(BBM_TUPLE)):
+                yield ("tuple-operand", i, j, e)
+
+
+def _set_empty(t):
+    return t[0] > t[2] or t[1] > t[3]
+
+
+def _bb_out(v):
+    if v[0] == "raised":
+        return ("raised",)
+    x = v[1]
+    return ("value", tuple(x), None if x.crs is None else str(x.crs)) if isinstance(x, BoundingBox) else ("other", repr(x))
+
+
+def run_bbox_more(case):
+    fam = case[0]
+    if fam == "laws":
+        _, i, j = case
+        ta, tb = BBM_BOXES[i], BBM_BOXES[j]
+        a, b = BoundingBox(*ta), BoundingBox(*tb)
+        cls = ("inverted" if _set_empty(ta) else "valid") + "-" + ("inverted" if _set_empty(tb) else "valid")
+        r = R(outcome=f"bbox-laws:{cls}", nontrivial=i != j)
+        what = f"a={ta} b={tb}"
+        u, n = a | b, a & b
+        if u != (b | a):
+            r.fail(f"bbox-union:not-commutative:{cls}", f"{what}: {u} vs {b | a}")
+        if n != (b & a):
+            r.fail(f"bbox-intersection:not-commutative:{cls}", f"{what}: {n} vs {b & a}")
+        if (a | a) != a or (a & a) != a:
+            r.fail(f"bbox:not-idempotent:{cls}", f"a={ta}: {a | a} {a & a}")
+        if (a | n) != a:
+            r.fail(f"bbox:absorption-union-over-intersection:{cls}", f"{what}: a|(a&b)={a | n}")
+        if (a & u) != a:
+            r.fail(f"bbox:absorption-intersection-over-union:{cls}", f"{what}: a&(a|b)={a & u}")
+        for o, name in ((ta, "a"), (tb, "b")):
+            if not _set_empty(o) and not contains(tuple(u), o):
+                r.fail(f"bbox-union:does-not-contain-operand:{cls}", f"{what}: a|b={tuple(u)} does not contain {name}")
+            if not _set_empty(tuple(n)) and not contains(o, tuple(n)):
+                r.fail(f"bbox-intersection:not-contained-in-operand:{cls}", f"{what}: a&b={tuple(n)} is not inside {name}")
+        # the set of common points, by brute force over the half-integer lattice spanned by the alphabet
+        pts = [k / 2 for k in range(-1, 8)]
+        common = any(ta[0] <= x <= ta[2] and tb[0] <= x <= tb[2] for x in pts) and any(ta[1] <= y <= ta[3] and tb[1] <= y <= tb[3] for y in pts)
+        if common == _set_empty(tuple(n)):
+            r.fail(f"bbox-intersection:emptiness-wrong:{cls}", f"{what}: a&b={tuple(n)}, operands {'share' if common else 'share no'} points")
+        bad = None
+        for tc in BBM_BOXES:
+            c = BoundingBox(*tc)
+            if ((u | c) != (a | (b | c)) or (n & c) != (a & (b & c)) or bbox_union([a, b, c]) != (u | c)
+                    or bbox_intersection(iter([a, b, c])) != (n & c)) and bad is None:
+                bad = tc
+        r.counts = dict(bbox_triples=len(BBM_BOXES))
+        if bad is not None:
+            r.fail(f"bbox:not-associative-or-nary-differs:{cls}", f"{what} c={bad}")
+        return r
+    if fam == "crs-mix":
+        _, ti, ci = case
+        crss = [None if c is None else CRS(BBM_CRS[c]) for c in BBM_CRS3[ci]]
+        bxs = [BoundingBox(*BBM_FEW[k], crs) for k, crs in zip(BBM_TRIPLES[ti], crss)]
+        distinct = {c for c in BBM_CRS3[ci] if c is not None}
+        mixed = len(set(BBM_CRS3[ci])) > 1
+        r = R(outcome=f"bbox-crs-mix:{BBM_CRS3[ci]}", nontrivial=mixed)
+        what = f"boxes {[BBM_FEW[k] for k in BBM_TRIPLES[ti]]} with crs {[None if c is None else BBM_CRS[c] for c in BBM_CRS3[ci]]}"
+        for name, fn in (("bbox_union", lambda l: bbox_union(l)), ("bbox_intersection", lambda l: bbox_intersection(l)),
+                         ("fold-|", lambda l: _functools.reduce(lambda x, y: x | y, l)),
+                         ("fold-&", lambda l: _functools.reduce(lambda x, y: x & y, l)),
+                         ("bbox_intersection-of-iterator", lambda l: bbox_intersection(iter(l)))):
+            outs = {}
+            for perm in itertools.permutations(range(3)):
+                outs[perm] = _bb_out(call(fn, [bxs[p] for p in perm]))
+            kinds = {o[0] for o in outs.values()}
+            if len(distinct) > 1 and kinds != {"raised"}:
+                r.fail(f"bbox-crs-mix:two-different-crs-accepted:{name}", f"{name}: {what}: {outs}")
+            elif len(kinds) > 1:
+                r.fail(f"bbox-crs-mix:outcome-depends-on-order:{name}:{'none-and-crs' if len(distinct) == 1 else 'crs'}",
+                       f"{name}: {what}: raises in some orders only: {outs}")
+            elif kinds == {"value"} and len(set(outs.values())) > 1:
+                r.fail(f"bbox-crs-mix:value-depends-on-order:{name}", f"{name}: {what}: {outs}")
+            elif kinds == {"value"} and not mixed:
+                pass
+        return r
+    _, i, j, e = case
+    ta, tb = BBM_FEW[i], BBM_FEW[j]
+    crs = CRS(BBM_CRS[0])
+    a, b = BoundingBox(*ta, crs), BoundingBox(*tb, crs)
+    want_u, want_n = tuple(a | b), tuple(a & b)
+    if fam == "number-types":
+        enc = BBM_ENC[e]
+        conv = {"float": float, "np.float64": np.float64, "np.int64": np.int64, "np.float32": np.float32,
+                "neg-zero": lambda v: -0.0 if v == 0 else float(v), "np.int8": np.int8}[enc]
+        b2 = BoundingBox(*(conv(v) for v in tb), crs)
+        r = R(outcome=f"bbox-number-types:{enc}")
+        for name, got, want in (("|", call(lambda: a | b2), want_u), ("&", call(lambda: a & b2), want_n),
+                                ("| swapped", call(lambda: b2 | a), want_u), ("& swapped", call(lambda: b2 & a), want_n),
+                                ("bbox_union", call(bbox_union, [b2, a]), want_u), ("bbox_intersection", call(bbox_intersection, [b2, a]), want_n)):
+            if got[0] == "raised" or tuple(got[1]) != want or got[1].crs != crs or not got[1] == BoundingBox(*want, crs):
+                r.fail(f"bbox-number-types:{name.split()[0]}:{enc}", f"a={ta} b={tb} as {enc}: {name} -> {got!r} want {want}")
+        return r
+    form = BBM_TUPLE[e]
+    tb2 = {"tuple": tuple(tb), "list": list(tb), "ndarray": np.asarray(tb)}[form]
+    r = R(outcome=f"bbox-tuple-operand:{form}")
+    outs = []
+    for name, got, want in (("|", call(lambda: a | tb2), want_u), ("&", call(lambda: a & tb2), want_n),
+                            ("bbox_union", call(bbox_union, [a, tb2]), want_u), ("bbox_intersection", call(bbox_intersection, [a, tb2]), want_n),
+                            ("bbox_union-first", call(bbox_union, [tb2, a]), want_u)):
+        outs.append(got[0])
+        # an operand that is not a BoundingBox: an error is fine, a wrong box is not
+        if got[0] == "ok" and (not isinstance(got[1], BoundingBox) or tuple(got[1]) != want):
+            r.fail(f"bbox-tuple-operand:wrong-value:{name}:{form}", f"a={ta} other={tb2!r}: {name} -> {got[1]!r} want {want}")
+    r.outcome += ":" + ("raised" if set(outs) == {"raised"} else "accepted" if set(outs) == {"ok"} else "mixed")
+    return r
+
+
 # ---------------------------------------------------------------------------------------------
 def slices(tier):
     nm = len(triple_members(tier))
@@ -1130,6 +1987,37 @@ def slices(tier):
         e1.Slice("bbox-pairs", gen_bbox_pairs(tier), make_run_bbox_pair(tier), "all ordered pairs of valid boxes, crs None / 3857"),
         e1.Slice("bbox-triples", gen_bbox_pairs(tier, 1), make_run_bbox_triples(tier),
                  "all ordered triples of valid boxes, crs None (case = ordered pair, third operand enumerated inside)"),
+        # -- self-review additions --
+        e1.Slice("pairs-extra", gen_pairs_extra(tier), run_pair,
+                 "pairs on 10 further bases: single mirrored axis, y-up, sheared, non-square pixels, rotated 45, tiny (4.5e-6) "
+                 "and huge (1e5) pixels, origins near 1e7, origins 5e-4 / half a pixel off whole numbers, 1 cm pixels in UTM"),
+        e1.Slice("pairs-aspect", gen_pairs_aspect(tier), run_pair,
+                 "landscape (2x7) and portrait (7x2) first operands, second operand in both aspects, offsets 3/5/8 on each axis "
+                 "and sign (larger than the shorter / the longer side)"),
+        e1.Slice("triples-extra", gen_triples_extra(tier), run_triple, "ordered triples on the 10 further bases"),
+        e1.Slice("tol-edges", gen_tol_edges, run_tol_edges,
+                 "sub-pixel offsets of f x tol, f in {0.9,0.999,1.001,1.1,10}, per axis and together, both signs; tol = default, "
+                 "explicit 1e-8, 1e-3, 1e-10 and explicit 0, for | & overlap_roi n-ary forms bounding_box_in_pixel_domain snap_to"),
+        e1.Slice("long", gen_long, run_long,
+                 "rasters 2000-200000 px long: per-pixel deviations (scale 1+-9e-4 / 1+-9e-6, shear 9e-4, rotation 0.05 deg) that "
+                 "displace the far corners by half a pixel or more must be rejected; whole-pixel shifts of ~2000 px accepted"),
+        e1.Slice("nary4", gen_nary4(tier), run_nary4,
+                 "all 24 orders of every 4-subset of a 7-member family (empty operands, disjoint, nested, touching): n-ary forms and "
+                 "left folds of | and &"),
+        e1.Slice("history", gen_history, run_history,
+                 "lazy properties read first, all operations in sequence on one pair (twice), operands cropped from a parent, the "
+                 "same object / an equal object as both operands: answers equal cold calls on fresh objects, results report their "
+                 "own extent, operands unchanged"),
+        e1.Slice("enclosing-kinds", gen_enclosing_kinds, run_enclosing_kinds,
+                 "enclosing of points, lines, multi-geometries, rings, collections, polygons with repeated vertices / holes, a "
+                 "BoundingBox vs its polygon, empty geometries, CRS-less regions"),
+        e1.Slice("encodings", gen_encodings, run_encodings,
+                 "second operand built from the same values in other encodings (shape list/numpy/Shape2d, affine int/numpy/-0.0, "
+                 "CRS int/lower/upper/urn/WKT2/WKT1/PROJJSON/pyproj/pickled) must behave identically; CRS = edited WKT with a "
+                 "stale EPSG id / without id / None must be rejected"),
+        e1.Slice("bbox-more", gen_bbox_more, run_bbox_more,
+                 "BoundingBox laws over all 81 boxes incl. inverted and zero-width ones (triples inside); CRS-less x CRS x other "
+                 "CRS operands in every order; coordinates as float/numpy types/-0.0; tuple, list, ndarray operands"),
     ]
 
 
@@ -1163,12 +2051,22 @@ def main(ctx):
         "enclosing: regions have positive area (the code documents a 1x1 result for point regions)",
         "enclosing across CRSs: a region's edges are straight in the region's own CRS; the oracle samples them densely "
         "(129 points per edge, refined 3x around each extreme) through a fresh pyproj transformer",
+        "alignment tolerance: the documented default tol=1e-8 px of bounding_box_in_pixel_domain / overlap_roi is the contract: "
+        "offsets <= 0.9995 tol must be accepted, >= 1.0005 tol rejected (exact residue from the float affines, bases with "
+        "origins within 100 px of 0 so that float evaluation is 1000x finer than the band); tol=0 must reject any non-zero offset",
+        "long rasters: a grid whose corners lie half a pixel or more off the other raster's pixel lattice is not 'related by a "
+        "whole-pixel shift' and must be rejected, whatever per-pixel tolerance the linear part passes",
+        "histories: answers are compared with the same call on fresh objects (exact for the same float inputs; as grid locations "
+        "for crops of a parent)",
+        "BoundingBox operands that are not BoundingBoxes (tuples etc.): an error is fine, a wrong box is not; CRS-less x CRS: the "
+        "outcome (error or value) must not depend on the order of the operands; two different CRSs must raise in every order",
+        "enclosing of a region without extent on an axis: it must be contained and the result is at most one pixel wide there",
     ]
     sl = slices(ctx.tier)
     if ctx.only:
         sl = [s for s in sl if any(s.name.startswith(o) for o in ctx.only)]
     e1.run_slices(ctx, sl)
-    ctx.extra.update(bbox_triples=int(ctx.counters["bbox_triples"]))
+    ctx.extra.update(bbox_triples=int(ctx.counters["bbox_triples"]), nary4_orderings=int(ctx.counters["nary4_orderings"]))
 
 
 def replay(slice_name, case, tier):
